@@ -148,7 +148,7 @@ type Sim struct {
 	logPos   int
 	Trunc    bool
 	Stalled  []string // tasks blocked at the end of the run
-	spinTask *Task
+	spinSig  uint64
 	spinRun  int
 	last     *Task
 	SpinHit  string
@@ -350,6 +350,11 @@ func Yield(site string) {
 	t.switchOut()
 }
 
+// Ended reports whether the run is over (tasks are being killed).
+//
+//go:norace
+func (s *Sim) Ended() bool { return s.ended }
+
 // Self returns the running task.
 //
 //go:norace
@@ -398,20 +403,22 @@ func (s *Sim) loop() {
 				continue
 			}
 		}
-		// spin detection
-		if len(runnable) == 1 && len(s.timers) == 0 {
-			if s.spinTask == runnable[0] {
-				s.spinRun++
-				if s.spinRun >= s.cfg.SpinLimit {
-					s.SpinHit = fmt.Sprintf("task %s spins at %s", runnable[0].Name, runnable[0].site)
-					return
-				}
-			} else {
-				s.spinTask = runnable[0]
-				s.spinRun = 0
+		// spin detection: the set of runnable tasks has not changed for
+		// SpinLimit consecutive steps (nobody blocked, unblocked, finished or
+		// was spawned) and no timer is pending: the runnable tasks are
+		// busy-waiting in a world in which nothing else can happen.
+		sig := uint64(len(s.tasks))
+		for _, t := range runnable {
+			sig = sig*1099511628211 ^ uint64(t.ID+1)
+		}
+		if sig == s.spinSig && len(s.timers) == 0 {
+			s.spinRun++
+			if s.spinRun >= s.cfg.SpinLimit {
+				s.SpinHit = fmt.Sprintf("task %s spins at %s (%d runnable task(s) unchanged for %d steps)", runnable[0].Name, runnable[0].site, len(runnable), s.spinRun)
+				return
 			}
 		} else {
-			s.spinTask = nil
+			s.spinSig = sig
 			s.spinRun = 0
 		}
 		t := s.pick(runnable)
